@@ -541,4 +541,81 @@ theorem rrData_plain {buf : Bytes} {off ty : Nat} {data : Bytes} (hp : rdataPlai
     have : ¬ 65535 < data.length := by omega
     simp [this]
 
+/-! ### integers and buffer positions -/
+
+theorem drop_of_drop_append {buf : Bytes} {off : Nat} {a b : Bytes} (h : buf.drop off = a ++ b) :
+    buf.drop (off + a.length) = b := by
+  have : buf.drop (off + a.length) = (buf.drop off).drop a.length := by rw [List.drop_drop]
+  rw [this, h, List.drop_left]
+
+theorem length_of_drop_append {buf : Bytes} {off : Nat} {a b : Bytes} (h : buf.drop off = a ++ b) (ha : a ≠ []) :
+    off + a.length + b.length = buf.length := by
+  have h1 := congrArg List.length h
+  have h2 : 0 < a.length := List.length_pos_iff.mpr ha
+  simp [List.length_drop] at h1; omega
+
+theorem putU16_some {n : Nat} {b : Bytes} (h : putU16 n = some b) :
+    n < 65536 ∧ b = [UInt8.ofNat (n / 256), UInt8.ofNat (n % 256)] := by
+  unfold putU16 at h
+  split at h
+  · cases h; exact ⟨by assumption, rfl⟩
+  · cases h
+
+theorem putU32_some {n : Nat} {b : Bytes} (h : putU32 n = some b) :
+    n < 4294967296 ∧ b = [UInt8.ofNat (n / 16777216), UInt8.ofNat (n / 65536 % 256), UInt8.ofNat (n / 256 % 256), UInt8.ofNat (n % 256)] := by
+  unfold putU32 at h
+  split at h
+  · cases h; exact ⟨by assumption, rfl⟩
+  · cases h
+
+theorem getU16_put {buf : Bytes} {off n : Nat} {b rest : Bytes} (hp : putU16 n = some b)
+    (h : buf.drop off = b ++ rest) : getU16 buf off = some n := by
+  obtain ⟨hn, rfl⟩ := putU16_some hp
+  unfold getU16; rw [h]
+  simp only [List.cons_append, List.nil_append]
+  rw [toNat_ofNat_lt (by omega : n / 256 < 256), toNat_ofNat_lt (by omega : n % 256 < 256)]
+  congr 1; omega
+
+theorem getU32_put {buf : Bytes} {off n : Nat} {b rest : Bytes} (hp : putU32 n = some b)
+    (h : buf.drop off = b ++ rest) : getU32 buf off = some n := by
+  obtain ⟨hn, rfl⟩ := putU32_some hp
+  unfold getU32; rw [h]
+  simp only [List.cons_append, List.nil_append]
+  rw [toNat_ofNat_lt (by omega : n / 16777216 < 256), toNat_ofNat_lt (by omega : n / 65536 % 256 < 256),
+      toNat_ofNat_lt (by omega : n / 256 % 256 < 256), toNat_ofNat_lt (by omega : n % 256 < 256)]
+  congr 1; omega
+
+theorem getU16_lt {buf : Bytes} {off n : Nat} (h : getU16 buf off = some n) : n < 65536 := by
+  unfold getU16 at h
+  split at h
+  · next a b _ _ =>
+    cases h
+    have := UInt8.toNat_lt a; have := UInt8.toNat_lt b; omega
+  · cases h
+
+theorem getU32_lt {buf : Bytes} {off n : Nat} (h : getU32 buf off = some n) : n < 4294967296 := by
+  unfold getU32 at h
+  split at h
+  · next a b c d _ _ =>
+    cases h
+    have := UInt8.toNat_lt a; have := UInt8.toNat_lt b; have := UInt8.toNat_lt c; have := UInt8.toNat_lt d; omega
+  · cases h
+
+/-! ### cache keys stay below the read position while a pointer-free message is read -/
+
+def KeysBelow (c : Cache) (off : Nat) : Prop := ∀ k ∈ keys c, k < off
+
+theorem lookup_none_of_keysBelow {c : Cache} {off : Nat} (h : KeysBelow c off) : c.lookup off = none := by
+  induction c with
+  | nil => rfl
+  | cons e c ih =>
+    obtain ⟨a, v⟩ := e
+    have ha : a < off := h a (by simp [keys])
+    have hne : (off == a) = false := by simp; omega
+    simp only [List.lookup, hne]
+    exact ih (fun k hk => h k (by simp [keys] at hk ⊢; exact Or.inr hk))
+
+theorem KeysBelow.mono {c : Cache} {a b : Nat} (h : KeysBelow c a) (hab : a ≤ b) : KeysBelow c b :=
+  fun k hk => Nat.lt_of_lt_of_le (h k hk) hab
+
 end MitmVerif.C25
